@@ -1,17 +1,10 @@
 (* C07 - the error reply to an undecodable line echoes action and specifier of the request
-   (after the repair b6f37c1: the DecodeError branch strips the raw line like decode_msg does) *)
+   (after the repairs b6f37c1: the DecodeError branch strips the raw line like decode_msg does, and a2736c5: it reads
+   the line as UTF-8, replacing what cannot be decoded, instead of latin-1) *)
 From Coq Require Import List Arith NArith Bool Lia.
 Import ListNotations.
-Require Import FV.Gen.C07 FV.C07.Model FV.C07.Lemmas FV.C07.Utf8.
+Require Import FV.Gen.C07 FV.C07.Model FV.C07.Lemmas FV.C07.Utf8 FV.C07.Repl.
 Local Open Scope N_scope.
-
-Definition ascii (l : list N) : bool := forallb (fun c => c <? 128) l.
-
-Lemma dec_ascii : forall l, ascii l = true -> utf8_dec l = Some l.
-Proof.
-  induction l as [|b r IH]; intro H; [reflexivity|]. simpl in H. apply andb_true_iff in H. destruct H as [Hb Hr].
-  rewrite dec1 by (apply N.ltb_lt; exact Hb). rewrite IH by exact Hr. reflexivity.
-Qed.
 
 Lemma or_empty_nonempty : forall x, or_empty (nonempty x) = x.
 Proof. intros [|c x]; reflexivity. Qed.
@@ -25,15 +18,62 @@ Proof.
   destruct (split1 r) as [h2 [r2|]]; split; reflexivity.
 Qed.
 
-Lemma decode_error_echo : forall E i line,
-  next_message E line = None -> ascii (bstrip line) = true ->
-  exists a s s' d, request_fields line = Some (a, s) /\
-    answer E i line = (OReply [] (ERRORPREFIX ++ a, s', d), None) /\ or_empty s' = or_empty s.
+(* the byte fields of a request line: bytes.split(b' ', 2) of the stripped line, padded like decode_msg does *)
+Definition byte_fields (line : bytes) : list bytes := splitsp decode_split_max (bstrip line) ++ [[]; []].
+
+Lemma map_pad : forall l : list bytes, map utf8_dec_repl (l ++ [[]; []]) = map utf8_dec_repl l ++ [[]; []].
+Proof. intro l. rewrite map_app. reflexivity. Qed.
+
+Lemma nth_map_repl : forall k (l : list bytes), nth k (map utf8_dec_repl l) [] = utf8_dec_repl (nth k l []).
+Proof. intros k l. exact (map_nth utf8_dec_repl l [] k). Qed.
+
+(* what the error reply to an undecodable line names: the first two byte fields of the stripped line, each read as
+   UTF-8 with replacement *)
+Lemma decode_error_echo_fields : forall E i line,
+  next_message E line = None ->
+  exists s' d, answer E i line =
+      (OReply [] (ERRORPREFIX ++ utf8_dec_repl (nth 0%nat (byte_fields line) []), s', d), None) /\
+    or_empty s' = utf8_dec_repl (nth 1%nat (byte_fields line) []).
 Proof.
-  intros E i line NM HA. unfold answer. rewrite NM. unfold request_fields. rewrite (dec_ascii _ HA).
+  intros E i line NM. unfold answer. rewrite NM. unfold byte_fields.
   change decode_split_max with 2%nat. change error_split_max with 3%nat. cbv zeta.
-  destruct (fields_agree (bstrip line)) as [F0 F1].
-  eexists. eexists. eexists. eexists. split; [reflexivity|]. split.
+  destruct (fields_agree (utf8_dec_repl (bstrip line))) as [F0 F1].
+  rewrite (splitsp_repl 2) in F0, F1. rewrite <- map_pad in F0, F1.
+  rewrite nth_map_repl in F0, F1.
+  eexists. eexists. split.
+  - unfold err_reply. rewrite <- F0. reflexivity.
+  - rewrite <- F1. reflexivity.
+Qed.
+
+(* full statement: for every undecodable line whose action and specifier are well-formed UTF-8 - whatever the bytes of
+   the data part are - the error reply is error_<action> and echoes the specifier *)
+Lemma decode_error_echo : forall E i line a s,
+  next_message E line = None ->
+  utf8_dec (nth 0%nat (byte_fields line) []) = Some a ->
+  utf8_dec (nth 1%nat (byte_fields line) []) = Some s ->
+  exists s' d, answer E i line = (OReply [] (ERRORPREFIX ++ a, s', d), None) /\ or_empty s' = s.
+Proof.
+  intros E i line a s NM Ha Hs. destruct (decode_error_echo_fields E i line NM) as [s' [d [H1 H2]]].
+  rewrite (repl_strict _ _ Ha) in H1. rewrite (repl_strict _ _ Hs) in H2. exists s', d. split; assumption.
+Qed.
+
+Lemma request_fields_some : forall line a s, request_fields line = Some (a, s) ->
+  exists u, utf8_dec (bstrip line) = Some u /\ a = nth 0%nat (splitsp 2 u ++ [[]; []]) [] /\
+            s = nonempty (nth 1%nat (splitsp 2 u ++ [[]; []]) []).
+Proof.
+  intros line a s RF. unfold request_fields in RF. destruct (utf8_dec (bstrip line)) as [u|]; [|discriminate].
+  exists u. injection RF as Ha Hs. split; [reflexivity|]. split; symmetry; assumption.
+Qed.
+
+(* the same in terms of the fields decode_msg reads when the whole line is text (the decode error is a JSON error) *)
+Lemma decode_error_echo_text : forall E i line a s,
+  next_message E line = None -> request_fields line = Some (a, s) ->
+  exists s' d, answer E i line = (OReply [] (ERRORPREFIX ++ a, s', d), None) /\ or_empty s' = or_empty s.
+Proof.
+  intros E i line a s NM RF. destruct (request_fields_some _ _ _ RF) as [u [D [-> ->]]].
+  unfold answer. rewrite NM. rewrite (repl_strict _ _ D). change error_split_max with 3%nat. cbv zeta.
+  destruct (fields_agree u) as [F0 F1].
+  eexists. eexists. split.
   - unfold err_reply. rewrite F0. reflexivity.
   - rewrite or_empty_nonempty. symmetry. exact F1.
 Qed.
